@@ -331,6 +331,7 @@ func init() {
 	})
 
 	registerBig(reg)
+	registerNet(reg)
 	registerTime(reg)
 	registerMisc(reg)
 	registerBinary(reg)
